@@ -133,6 +133,7 @@ def run(ctx):
                     "declarations / use items are reorderable" % want, ["%s:%d" % (g.file, g.line)])
     numeric_chunks_are_numbers(ctx, "R11-e")
     macro_use_barrier_by_name(ctx, "R11-f")
+    equality_is_finer_than_the_order(ctx, "R11-g")
 
 
 def numeric_chunks_are_numbers(ctx, rid):
@@ -282,3 +283,31 @@ def pin_guard(p, dec):
     if skip is False and mac is False:
         return False, n
     return None, n
+
+
+def equality_is_finer_than_the_order(ctx, rid):
+    """R11-g: two imports that merely *rank* equal are not the same import"""
+    p, r = ctx.p, ctx.r
+    r.rule(rid, "the order on use trees deliberately ignores aliases (`use a::b as c;` and `use a::b;` rank equal, so a stable sort "
+                "keeps them as written); their *equality* — what de-duplication and merging ask — does not: "
+                "`<UseTree as PartialEq>::eq` compares the `path` fields (segments with their aliases) and is not defined through "
+                "`Ord::cmp` / `partial_cmp`.  Equality by rank makes `imports_granularity = Item` drop `use std::io::Write as _;` "
+                "next to `use std::io::Write;`: the output is no longer a permutation of the input")
+    eq = None
+    for f in p.by_crate["rustfmt_nightly"]:
+        if f.impl and f.impl.get("self") == "rustfmt_nightly::imports::UseTree" and f.impl.get("trait") == "std::cmp::PartialEq" \
+                and f.id.endswith("::eq"):
+            eq = f
+    if eq is None:
+        r.undecidable(rid, "<UseTree as PartialEq>::eq not found")
+        return
+    fields = {str(fld) for (adt, var, fld, mode, bb, line) in eq.field_accesses() if (adt or "").endswith("imports::UseTree")}
+    by_rank = [c for c in eq.calls() if (c.declared or c.name).rsplit("::", 1)[-1] in ("cmp", "partial_cmp")
+               and any("imports::UseTree" in g for g in c.ga)]
+    ok = "path" in fields and not by_rank
+    r.instance(rid, "<UseTree as PartialEq>::eq reads %s" % sorted(fields), "ok" if ok else "violation", "%s:%d" % (eq.file, eq.line),
+               "via Ord" if by_rank else "field comparison")
+    if not ok:
+        r.violation(rid, "equality of use trees is defined by their rank, not by their paths",
+                    "`eq` %s: imports that differ only in an alias compare equal and one of them is dropped as a duplicate"
+                    % ("calls cmp on the trees" if by_rank else "does not compare `path`"), ["%s:%d" % (eq.file, eq.line)])
